@@ -30,6 +30,8 @@ EXPLANATION = (
   ' (LOOP-break) no loop over the items of a collection is left by a branch that does nothing but `break` on a test about the item (end-of-input sentinels, flags set in the loop body and searches whose variable is read afterwards excepted): an item that is to be skipped does not end the processing of the items after it;'
   ' (TAINT) as in C07: model text reaches the WebVTT payload through an escaping function that replaces & < > exactly once each, so the cue carries the visible text and nothing else;'
   + " (FIN-merge) the paragraph merger, interpreted on sample snapshots (divs nested at several depths, a nested div between paragraphs, one or several regions), leaves one paragraph per region holding the spans of all its paragraphs in document order with one line break between consecutive paragraphs;"
+  + " (DEP-round, shared with C12) ClockTime.from_seconds, which prints every cue time, derives hours, minutes, seconds and milliseconds from one value rounded once to the millisecond;"
+  + " (PRUNE-sites) every `return None` of ISD._process_element is one of the grounds for leaving an element out of a snapshot (inactive, another region, display=none, the final emptiness rule) or anticipates the final rule, and every `return <element>` comes after the activity test and the region test: nothing inactive and nothing of another region is handed to the snapshot and to the cues;"
 )
 RULE_TEXT = ("one rule instance per (function, live loop), per (flattener, element kind), per writer for SEQ-end / FIN-default; "
              "distinct = distinct (rule, construct) pairs")
@@ -244,6 +246,10 @@ def check_finish(ctx):
 
 
 def run(ctx):
+  from ..rules import isdrules as _isdr5
+  ctx.floor("PRUNE-sites", "return sites of _process_element", _isdr5.check_prune_sites(ctx, ctx.ix.func("ttconv.isd:ISD._process_element")), 6)
+  from . import c12 as _c12r
+  _c12r.check_single_rounding(ctx)
   from ..rules import probes as _probes
   ctx.floor("FIN-merge", "sample snapshots decided", _probes.check_paragraph_merge(ctx), 5)
   fs = common.scope_funcs(ctx, LIVE_MODULES)
